@@ -351,8 +351,8 @@ elif sc.get("sigchld") == "reaper":
 kw = dict(n_jobs=N)
 if sc.get("pre_dispatch"):
     kw["pre_dispatch"] = sc["pre_dispatch"]
-if KIND == "stubborn":
-    kw["batch_size"] = 1
+if KIND in ("stubborn", "dispatching"):
+    kw["batch_size"] = 1      # the victim must be submitted on its own, before the input generator starts waiting
 if KIND == "mgr_busy":
     kw["batch_size"] = 1      # the slow result and the victim must travel in different batches
 if sc.get("gen"):
